@@ -416,6 +416,11 @@ func (d *PathDecoder) collectInferredReferenceTargetsForBody(addr lang.Address, 
 		collectLocalAddr = false
 		content          = ast.DecodeBody(body, bodySchema)
 	)
+
+	if bodySchema == nil {
+		// nothing to infer from (e.g. nested block declared without a body)
+		return refs
+	}
 	if bAddrSchema.DependentBodySelfRef || bAddrSchema.BodySelfRef {
 		if selfRefBodyRangePtr == nil {
 			// We don't get body range for JSON here
